@@ -42,25 +42,28 @@ def interp_error_features(msg, mo):
   norm = re.sub(r'\d+', 'N', msg.replace('\n', ' '))
   f['msg'] = norm[-220:]
   if m:
-    # dtype of the failing node's first input
+    # operand dtypes of the failing node: the node number is relative to the subgraph being prepared, so look for a
+    # subgraph whose operator at that index has the reported type (several candidates: prefer one with integer operands)
     idx = int(m.group(1))
-    ops = [op for sg in mo.subgraphs for op in sg.operators]
+    cands = []
     for sg in mo.subgraphs:
       if idx < len(sg.operators):
         op = sg.operators[idx]
-        tin = [decode.TYPE_NAME.get(sg.tensors[int(i)].type) for i in op.inputs if int(i) >= 0]
-        f['node_in_types'] = tin
-        # is the node's output range the 1e-4 floor (constant / all-zero calibration statistics)?
-        floor = False
-        for o in op.outputs:
-          t = sg.tensors[int(o)]
-          qp = decode.qparams(t)
-          if qp is not None and t.type in (models.TT.INT8, models.TT.INT16):
-            levels = 255 if t.type == models.TT.INT8 else 65535
-            if float(qp[0][0]) * levels <= 2.02e-4:
-              floor = True
-        f['node_out_range_is_floor'] = floor
-        break
+        if models.CODE_NAMES.get(mo.operatorCodes[op.opcodeIndex].builtinCode) == m.group(2):
+          cands.append((sg, op))
+    cands.sort(key=lambda c: -sum(1 for i in c[1].inputs if int(i) >= 0 and c[0].tensors[int(i)].type != models.TT.FLOAT32))
+    if cands:
+      sg, op = cands[0]
+      f['node_in_types'] = [decode.TYPE_NAME.get(sg.tensors[int(i)].type) for i in op.inputs if int(i) >= 0]
+      floor = False
+      for o in op.outputs:
+        t = sg.tensors[int(o)]
+        qp = decode.qparams(t)
+        if qp is not None and t.type in (models.TT.INT8, models.TT.INT16):
+          levels = 255 if t.type == models.TT.INT8 else 65535
+          if float(qp[0][0]) * levels <= 2.02e-4:
+            floor = True
+      f['node_out_range_is_floor'] = floor
   return f
 
 
